@@ -30,7 +30,7 @@ Record chg := {
   backups : bool;               (* revert(backups=...) ; the command line passes  not --no-backup *)
   mm_match : bool;              (* merge_modified.get(wt_path) == wt_sha1 *)
   in_basis : bool;              (* basis_inter.find_source_path(wt_path) is not None *)
-  target_versioned : bool;      (* change.versioned[0] *)
+  target_versioned : bool;      (* change.versioned[0]; read by the decision only before cd17d15 *)
   sha_eq_basis : bool           (* wt_sha1 == basis_tree.get_file_sha1(basis_path) *)
 }.
 
@@ -38,8 +38,19 @@ Definition is_none {A} (o : option A) : bool := match o with None => true | Some
 Definition is_some {A} (o : option A) : bool := negb (is_none o).
 Definition is_file (k : option kind) : bool := match k with Some KFile => true | _ => false end.
 
-(* transform.py 962-979, branch by branch *)
+(* transform.py 962-986, branch by branch (as repaired by cd17d15: a file that is not in the basis is always
+   kept; "wt_sha1 is None" counts as different -- the model works with the contents, so a hash is never None) *)
 Definition keep_content (c : chg) : bool :=
+  if is_file (wt_kind c) && (backups c || is_none (target_kind c)) then
+    if negb (mm_match c) then
+      if negb (in_basis c) then true
+      else
+        (if negb (sha_eq_basis c) then true else false)
+    else false
+  else false.
+
+(* the decision before cd17d15 (kept for the record: see C12_old_decision_refuted) *)
+Definition keep_content_old (c : chg) : bool :=
   if is_file (wt_kind c) && (backups c || is_none (target_kind c)) then
     if negb (mm_match c) then
       if negb (in_basis c) then
@@ -66,14 +77,6 @@ Definition alter_action (c : chg) : action :=
    basis at all) and was not written by a merge *)
 Definition user_edited_chg (c : chg) : bool :=
   is_file (wt_kind c) && negb (mm_match c) && (negb (in_basis c) || negb (sha_eq_basis c)).
-
-Definition all_kinds : list (option kind) := [None; Some KFile; Some KDir; Some KLink].
-Definition bools : list bool := [false; true].
-Definition all_chg : list chg :=
-  flat_map (fun wk => flat_map (fun tk => flat_map (fun bk => flat_map (fun mmm => flat_map (fun ib =>
-  flat_map (fun tv => map (fun se =>
-    {| wt_kind := wk; target_kind := tk; backups := bk; mm_match := mmm; in_basis := ib;
-       target_versioned := tv; sha_eq_basis := se |}) bools) bools) bools) bools) bools) all_kinds) all_kinds.
 
 (* ------------------------------------------------------------------ Part 2: flat trees, revert *)
 Inductive node :=
@@ -167,9 +170,9 @@ Fixpoint plans (s : state) (target : fmap) (bk : bool) (ns : list bytes) : list 
 (* osutils.available_backup_name: "<name>.~<k>~" for the least k >= 1 that [exists] rejects *)
 Definition TILDE : N := 126.
 Definition backup_name (n : bytes) (k : N) : bytes := n ++ [46; TILDE] ++ print_dec k ++ [TILDE].
-(* [norm] = what the existence probe does to the candidate before looking it up (identity for the transform's
-   _has_named_child/lexists probe; URL-unescaping for ControlDir._available_backup_name, whose probe is
-   root_transport.has(<relative URL>) but is handed a plain path).  A candidate found taken is dropped from
+(* [norm] = what the existence probe does to the candidate before looking it up: the identity, both for the
+   transform's _has_named_child/lexists probe and (since b356f06, which escapes the path) for
+   ControlDir._available_backup_name's root_transport.has.  A candidate found taken is dropped from
    [used]: candidates are pairwise different, so this changes no later answer and makes fuel = length used enough. *)
 Fixpoint avail_gen (norm : bytes -> bytes) (n : bytes) (used : list bytes) (k : N) (fuel : nat) : bytes :=
   let c := backup_name n k in
@@ -245,76 +248,37 @@ Definition user_edited (s : state) (n : bytes) (c : bytes) : Prop :=
 
 (* ------------------------------------------------------------------ Part 3: remove *)
 (* files_to_backup (only computed when not keep_files and not force) for one named path:
-   iter_changes(basis, want_unversioned): not in the basis -> backup (an unversioned file is only reported when
-   its path is not a path of the basis: "rm --keep f" followed by "rm f" deletes f);
+   iter_changes(basis, want_unversioned): not in the basis -> backup; an unversioned path is backed up in any
+   case ("f in files_to_backup or (not fid and not force)", 86c5d42);
    versioned, changed_content, still present -> backup *)
 Definition to_backup (s : state) (n : bytes) : bool :=
   if memn n (inv s) then
     is_none (lookup n (basis s))
     || (changed_content (lookup n (basis s)) (lookup n (disk s)) && is_some (lookup n (disk s)))
-  else is_none (lookup n (basis s)).      (* a path of the basis is not reported as unversioned (dirstate) *)
-
-(* urlutils.unescape as applied by Transport.has to its argument: %XX -> one byte *)
-Definition hexval (c : N) : option N :=
-  if (48 <=? c) && (c <=? 57) then Some (c - 48)
-  else if (65 <=? c) && (c <=? 70) then Some (c - 55)
-  else if (97 <=? c) && (c <=? 102) then Some (c - 87)
-  else None.
-Fixpoint unescape_aux (skip : nat) (s : bytes) : bytes :=
-  match s with
-  | [] => []
-  | c :: t =>
-      match skip with
-      | S k => unescape_aux k t
-      | O =>
-          if c =? 37 then
-            match t with
-            | a :: b :: _ =>
-                match hexval a, hexval b with
-                | Some x, Some y => (16 * x + y) :: unescape_aux 2 t
-                | _, _ => c :: unescape_aux 0 t
-                end
-            | _ => c :: unescape_aux 0 t
-            end
-          else c :: unescape_aux 0 t
-      end
-  end.
-Definition unescape (s : bytes) : bytes := unescape_aux 0 s.
-Definition nonascii (s : bytes) : bool := existsb (fun b => 128 <=? b) s.
-
-(* ControlDir._available_backup_name(base) = osutils.available_backup_name(base, self.root_transport.has):
-   None = the probe raises InvalidURL (non-ASCII in what should be a URL) *)
-Definition avail_rm (n : bytes) (used : list bytes) : option bytes :=
-  if nonascii n then None else Some (avail_gen unescape n used 1 (List.length used)).
+  else true.
 
 Definition set_disk (a : state) (d : fmap) : state := {| basis := basis a; inv := inv a; disk := d; mm := mm a |}.
 
-(* one iteration of the "for f in files" loop; the bool = an exception escaped (InvalidURL) *)
-Definition remove_one (keep force : bool) (s0 : state) (acc : state * bool) (n : bytes) : state * bool :=
-  let '(a, err) := acc in
-  if err then acc
-  else if keep then acc
+(* one iteration of the "for f in files" loop *)
+Definition remove_one (keep force : bool) (s0 : state) (a : state) (n : bytes) : state :=
+  if keep then a
   else match lookup n (disk a) with
-       | None => acc
+       | None => a
        | Some nd =>
            let need_backup := match nd with
                               | NDir (_ :: _) => negb force          (* non-empty directory: rmtree / backup *)
-                              | _ => negb force && to_backup s0 n    (* f in files_to_backup *)
+                              | _ => negb force && to_backup s0 n    (* f in files_to_backup or (not fid and not force) *)
                               end in
            if need_backup then
-             match avail_rm n (names (disk a)) with
-             | None => (a, true)
-             | Some b => (set_disk a (remove_key b (remove_key n (disk a)) ++ [(b, nd)]), false)   (* os.rename *)
-             end
-           else (set_disk a (remove_key n (disk a)), false)
+             let b := avail n (names (disk a)) in                    (* ControlDir._available_backup_name *)
+             set_disk a (remove_key b (remove_key n (disk a)) ++ [(b, nd)])   (* os.rename *)
+           else set_disk a (remove_key n (disk a))
        end.
 
-(* [files]: in the order of the loop (all_files sorted in reverse).  The inventory delta is applied after the
-   loop, so an escaping exception leaves every name versioned. *)
-Definition remove (files : list bytes) (keep force : bool) (s : state) : state * bool :=
-  let '(a, err) := fold_left (remove_one keep force s) (dedup files) (s, false) in
-  if err then (a, true)
-  else ({| basis := basis a; inv := filter (fun m => negb (memn m files)) (inv a); disk := disk a; mm := mm a |}, false).
+(* [files]: in the order of the loop (all_files sorted in reverse); the inventory delta is applied after it *)
+Definition remove (files : list bytes) (keep force : bool) (s : state) : state :=
+  let a := fold_left (remove_one keep force s) (dedup files) s in
+  {| basis := basis a; inv := filter (fun m => negb (memn m files)) (inv a); disk := disk a; mm := mm a |}.
 
 (* ------------------------------------------------------------------ Part 4: one path through a merge *)
 Record mres := {
@@ -402,7 +366,7 @@ Definition run_revert (u : list bytes) (target : fmap) (sel : option (list bytes
   | Some s' => obs_state u s'
   end.
 Definition run_remove (u : list bytes) (files : list bytes) (keep force : bool) (s : state) : obs :=
-  let '(a, err) := remove files keep force s in OL [obool err; obs_state u a].
+  obs_state u (remove files keep force s).
 
 (* one truth-table row: the decision, and the same row pushed through [revert] on the one-file state the
    driver builds (so that Part 1 and Part 2 are tied to the same real run) *)
